@@ -114,24 +114,39 @@ class IdentitySpec:
 
 
 class Frames:
-    """State shared by the two stacks of one run (kept in path.ghost)."""
+    """State shared by the two stacks of one run (kept in path.ghost).
 
-    def __init__(self, eng, F, spec=None):
+    ``spec`` says what a pending source node contributes to the list of its
+    level.  ``extra`` are further specifications that hold only while a
+    guard is true (e.g. the identity specification while substitute has not
+    replaced anything yet): their equations are stated under the guard."""
+
+    def __init__(self, eng, F, spec=None, extra=()):
         self.eng = eng
         self.spec = spec or IdentitySpec()
+        self.specs = [(self.spec, None)] + list(extra)
+        self.F0 = F
         self.F = self.spec.seq(F)  # what the bottom level has to reach
         self.pending_list = None  # (A, name): list to materialise next
+
+    @staticmethod
+    def _under(guard, f):
+        return f if guard is None else z3.Implies(guard(), f)
 
     # -- havoc ------------------------------------------------------------------
     def havoc(self, p, tag=''):
         R = z3.Const(p.fresh_name('R' + tag), SeqS)
-        CUR = z3.Const(p.fresh_name('CUR' + tag), SeqS)
         bottom = p.fresh_bool('bottom' + tag)
         A = z3.Const(p.fresh_name('A' + tag), SeqS)
-        p.assume(z3.Concat(A, self.spec.seq(R)) == CUR)
-        p.assume(z3.Implies(bottom, CUR == self.F))
-        p.assume(self.spec.seq(z3.Empty(SeqS)) == z3.Empty(SeqS))
-        lvl = Level(R, CUR, bottom)
+        CURs = []
+        for k, (sp, g) in enumerate(self.specs):
+            CUR = z3.Const(p.fresh_name(f'CUR{k or ""}' + tag), SeqS)
+            CURs.append(CUR)
+            p.assume(self._under(g, z3.Concat(A, sp.seq(R)) == CUR))
+            p.assume(self._under(g, z3.Implies(bottom,
+                                               CUR == sp.seq(self.F0))))
+            p.assume(sp.seq(z3.Empty(SeqS)) == z3.Empty(SeqS))
+        lvl = Level(R, CURs, bottom)
         visit = wl.AbsList(self.eng, [wl.Opaque(
             lvl, self.split_visit, self.visit_nonempty)])
         nbelow = p.fresh_int('lists_below' + tag)
@@ -153,29 +168,34 @@ class Frames:
             n = nm.lazy_node(e, p, p.fresh_name('pending'))
             R2 = z3.Const(p.fresh_name('R'), SeqS)
             p.assume(lvl.R == z3.Concat(z3.Unit(nm.S(n)), R2))
-            p.assume(self.spec.seq(lvl.R) == z3.Concat(
-                self.spec.item(nm.S(n)), self.spec.seq(R2)))
-            self.spec.unfold(p, nm.S(n))
+            for sp, g in self.specs:
+                p.assume(sp.seq(lvl.R) == z3.Concat(
+                    sp.item(nm.S(n)), sp.seq(R2)))
+                sp.unfold(p, nm.S(n))
             return (n, False), Level(R2, lvl.CUR, lvl.bottom)
         # this level is finished: the marker of the enclosing node is next
         if not e.truth(mk_bool(z3.Not(lvl.bottom))):
             raise PyRaise(IndexError('pop from empty list'))
         x = nm.lazy_node(e, p, p.fresh_name('encl'))
         p.assume(Struct.is_tup(nm.S(x)))
-        p.assume(self.spec.target(nm.S(x)) == lvl.CUR)
-        p.assume(self.spec.seq(z3.Empty(SeqS)) == z3.Empty(SeqS))
-        self.spec.marker(p, nm.S(x))
-        self.spec.unfold(p, nm.S(x))
-        # the enclosing level: its list A', rest R', target CUR'
+        # the enclosing level: its list A', rest R', targets CUR'
         A2 = z3.Const(p.fresh_name('A'), SeqS)
         R2 = z3.Const(p.fresh_name('R'), SeqS)
-        CUR2 = z3.Const(p.fresh_name('CUR'), SeqS)
         bottom2 = p.fresh_bool('bottom')
-        p.assume(z3.Concat(A2, self.spec.item(nm.S(x)),
-                           self.spec.seq(R2)) == CUR2)
-        p.assume(z3.Implies(bottom2, CUR2 == self.F))
+        CURs2 = []
+        for k, (sp, g) in enumerate(self.specs):
+            p.assume(self._under(g, sp.target(nm.S(x)) == lvl.CUR[k]))
+            p.assume(sp.seq(z3.Empty(SeqS)) == z3.Empty(SeqS))
+            sp.marker(p, nm.S(x))
+            sp.unfold(p, nm.S(x))
+            CUR2 = z3.Const(p.fresh_name(f'CUR{k or ""}'), SeqS)
+            CURs2.append(CUR2)
+            p.assume(self._under(g, z3.Concat(
+                A2, sp.item(nm.S(x)), sp.seq(R2)) == CUR2))
+            p.assume(self._under(g, z3.Implies(bottom2,
+                                               CUR2 == sp.seq(self.F0))))
         self.pending_list = (A2, bottom2)
-        return (x, True), Level(R2, CUR2, bottom2)
+        return (x, True), Level(R2, CURs2, bottom2)
 
     def split_args(self, e, nbelow):
         """Materialise the list of the enclosing level."""
@@ -213,7 +233,8 @@ class Frames:
             else:
                 return None
         lists.reverse()  # top first
-        # visit: split at the markers, top first
+        # visit: split at the markers, top first; pending items as source
+        # structures ('seq', q) / ('item', s)
         groups = [[]]
         markers = []
         lvl = None
@@ -228,7 +249,7 @@ class Frames:
                 if not (isinstance(w, tuple) and len(w) == 2 and w[0] is g
                         and w[1] is False and part.rev):
                     return None
-                groups[-1].append(self.spec.seq(part.seq))
+                groups[-1].append(('seq', part.seq))
             else:
                 it = part[1]
                 if not (isinstance(it, tuple) and len(it) == 2 and isinstance(
@@ -238,26 +259,34 @@ class Frames:
                     markers.append(it[0])
                     groups.append([])
                 else:
-                    groups[-1].append(self.spec.item(nm.S(it[0])))
+                    groups[-1].append(('item', nm.S(it[0])))
         if len(lists) != len(groups):
             return None
         eqs = []
-        for i, (lst, grp) in enumerate(zip(lists, groups)):
-            lhs = [list_den(lst, S)]
-            if i > 0:
-                lhs.append(self.spec.item(nm.S(markers[i - 1])))
-            lhs.extend(grp)
-            if i < len(markers):
-                eqs.append(Struct.is_tup(nm.S(markers[i])))
-                eqs.append(cat(lhs) == self.spec.target(nm.S(markers[i])))
-            elif lvl is not None:
-                eqs.append(cat(lhs + [self.spec.seq(lvl.R)]) == lvl.CUR)
-                eqs.append(z3.Implies(lvl.bottom, lvl.CUR == self.F))
-                eqs.append(lvl.bottom == (nbelow == 0))
-                eqs.append(nbelow >= 0)
-            else:
-                eqs.append(cat(lhs) == self.F)
-                eqs.append(nbelow == 0)
+        for k, (sp, gd) in enumerate(self.specs):
+            for i, (lst, grp) in enumerate(zip(lists, groups)):
+                lhs = [list_den(lst, S)]
+                if i > 0:
+                    lhs.append(sp.item(nm.S(markers[i - 1])))
+                lhs.extend(sp.seq(x) if kind == 'seq' else sp.item(x)
+                           for kind, x in grp)
+                if i < len(markers):
+                    if k == 0:
+                        eqs.append(Struct.is_tup(nm.S(markers[i])))
+                    eqs.append(self._under(gd, cat(lhs) == sp.target(
+                        nm.S(markers[i]))))
+                elif lvl is not None:
+                    eqs.append(self._under(gd, cat(
+                        lhs + [sp.seq(lvl.R)]) == lvl.CUR[k]))
+                    eqs.append(self._under(gd, z3.Implies(
+                        lvl.bottom, lvl.CUR[k] == sp.seq(self.F0))))
+                    if k == 0:
+                        eqs.append(lvl.bottom == (nbelow == 0))
+                        eqs.append(nbelow >= 0)
+                else:
+                    eqs.append(self._under(gd, cat(lhs) == sp.seq(self.F0)))
+                    if k == 0:
+                        eqs.append(nbelow == 0)
         return eqs
 
 
@@ -359,6 +388,25 @@ def install(eng):
             e.call(f, [(a, b)], {})
             return AbsBools()
         return b_map(e, f, *its)
+
+    def pairs_comp(e, it, node, env, mod, clsctx):
+        """(pred for a, b in zip(node, children)): like map(pred, zip(..))"""
+        import ast
+        from pyvc.interp import Env
+        g = node.generators[0]
+        if len(node.generators) != 1 or g.ifs or not isinstance(
+                node, (ast.GeneratorExp, ast.ListComp)):
+            return NotImplemented
+        a = nm.lazy_node(e, cur(), cur().fresh_name('child'))
+        b = nm.lazy_node(e, cur(), cur().fresh_name('rebuilt'))
+        for n in (a, b):
+            n.attrs['id'] = SNum(cur().fresh_int('pair_id'))
+        cenv = Env(env, env.func if env is not None else None)
+        e.assign(g.target, (a, b), cenv, mod, clsctx)
+        e.eval(node.elt, cenv, mod, clsctx)  # must not raise
+        return AbsBools()
+
+    eng.comp_handlers[AbsPairs] = pairs_comp
 
     def b_any(e, it):
         if isinstance(it, AbsBools):
